@@ -194,6 +194,26 @@ def shard(ctx: Ctx) -> None:
             for j in range(4):
                 if not noise_batch(ctx, s3, [(7, b"")] if j % 2 else [(8, b"x"), (7, b"")], "after-oversize"):
                     break
+    # ---- plaintext and Noise helpers (and two Noise sessions with different keys) alive in ONE process, writing the same (type, length) pairs
+    #      alternately, both orders: nothing derived from a packet may be shared between helpers of different framing or different sessions
+    sa, sb = NoiseSession(), NoiseSession()
+    for k in range(120 if ctx.thorough else 30):
+        ty = rng.choice(ids)
+        n = rng.choice([0, 1, 5, 9, 60, 127, 128, 255, 256, 300])
+        b = [(ty, pay(n, ty + k))]
+        order = (k + ctx.shard) % 3
+        if order == 0:
+            plain_batch(ctx, b, "mixed-framings")
+            ok = noise_batch(ctx, sa, b, "mixed-framings") and noise_batch(ctx, sb, b, "mixed-framings")
+        elif order == 1:
+            ok = noise_batch(ctx, sa, b, "mixed-framings")
+            plain_batch(ctx, b, "mixed-framings")
+            ok = noise_batch(ctx, sb, b, "mixed-framings") and ok
+        else:
+            ok = noise_batch(ctx, sb, b, "mixed-framings") and noise_batch(ctx, sa, b, "mixed-framings")
+            plain_batch(ctx, b, "mixed-framings")
+        if not ok:
+            sa, sb = NoiseSession(), NoiseSession()
     # ---- observation only: payload larger than the format can carry
     if ctx.shard == 0:
         s2 = NoiseSession()
